@@ -40,7 +40,9 @@ SPEC = dict(
                 "implementation-only oracle, which currently reports several genuine defects there (see notes/C17.md). "
                 "subset_idempotent is proved for both renumberings without COLR/UVS closures; colour / UVS variants are tested only. "
                 "The per-glyph byte lengths fed to the loca model are computed by the harness from the ORIGINAL font's raw glyf bytes "
-                "(own implementation of the trimming walk, independent of klippa); agreement of the whole loca table checks them too."),
+                "(own implementation of the trimming walk, independent of klippa); agreement of the whole loca table checks them too; a "
+                "regular generator family of simple glyphs written with repeated flags (1..300 points x coordinate byte widths x padding) "
+                "exercises that walk on both sides of every u8 boundary (finding fixed by /repo 84fae1d)."),
     technique="Coq proof (induction over sorted lists / the trimming loop / the closure recursion) over hand-written Gallina model + vm_compute correspondence with klippa + skrifa-based implementation oracle",
     modelled=["klippa/src/lib.rs: Plan::new (unicode_to_new_gid_list rewrite), populate_unicodes_to_retain (both branches), populate_gids_to_retain (.notdef, cmap14 UVS closure, COLR closure as oracle, glyf_closure_glyphs with operation budget and MAX_NESTING_LEVEL), remove_invalid_gids, create_old_gid_to_new_gid_map (rank / RETAIN_GIDS)",
               "klippa/src/hmtx.rs: subset (bounds check, long/short placement, zero fill), compute_new_num_h_metrics, get_new_gid_advance; read-fonts hmtx advance/side_bearing lookups",
